@@ -185,6 +185,10 @@ theorem stream_cons (m : Member) (ms : List Member) : stream (m :: ms) = m.bytes
 theorem data_cons (m : Member) (ms : List Member) : data (m :: ms) = m.payload ++ data ms := by
   simp [data]
 
+theorem data_take_append_drop (ms : List Member) (j : Nat) : data ms = data (ms.take j) ++ data (ms.drop j) := by
+  unfold data
+  rw [← List.flatten_append, ← List.map_append, List.take_append_drop]
+
 theorem offset_zero (ms : List Member) : offset ms 0 = 0 := by simp [offset]
 
 theorem offset_cons_succ (m : Member) (ms : List Member) (j : Nat) :
